@@ -166,6 +166,11 @@ func c19Lex(t string) []tok {
 	return toks
 }
 
+// c19Exotic: runes and bytes that a generic quoting routine may treat
+// differently from the lexer (non-printable Unicode, controls, DEL, invalid UTF-8).
+var c19Exotic = []string{"\u00a0", "\u200b", "\u200d", "\u00ad", "\u3000", "\ufeff", "\u2028", "\u2029", "\u0085", "\u007f", "\x01", "\x1b", "\x00", "\xff", "\xc3", "\U0001F600",
+	"\U0001F468\u200d\U0001F469", "e\u0301", "\u202e", "\ufffd", "\ue000", "\U000e0001", "\\u00a0", "\\x41", "\\a", "\\0", "\\'", "'", "`", "$", "\\\\n"}
+
 func c19Mutate(r *vlib.Rand, t string) (string, string) {
 	toks := c19Lex(t)
 	pick := func(kind byte) (tok, bool) {
@@ -202,7 +207,7 @@ func c19Mutate(r *vlib.Rand, t string) (string, string) {
 		}
 	case 2: // escapes inside a string
 		if k, ok := pick('s'); ok && k.e-k.s > 2 {
-			esc := vlib.Pick(r, []string{`\\`, `\"`, `\n`, `\t`, `\r`, `\q`, `\#`, `\{`, ` `, `#`, `{`, `}`, `é`, `é`})
+			esc := vlib.Pick(r, []string{`\\`, `\"`, `\n`, `\t`, `\r`, `\q`, `\#`, `\{`, ` `, `#`, `{`, `}`, `é`, `é`, vlib.Pick(r, c19Exotic), vlib.Pick(r, c19Exotic)})
 			pos := k.s + 1 + r.Intn(k.e-k.s-1)
 			return t[:pos] + esc + t[pos:], "escape_in_string"
 		}
@@ -251,6 +256,9 @@ func c19Mutate(r *vlib.Rand, t string) (string, string) {
 		}
 	case 13: // value with characters that need quoting
 		if k, ok := pick('s'); ok {
+			if r.Chance(0.3) {
+				return t[:k.s] + `"x` + vlib.Pick(r, c19Exotic) + `y` + vlib.Pick(r, c19Exotic) + `"` + t[k.e:], "exotic_string_value"
+			}
 			v := vlib.Pick(r, []string{`"a b"`, `"a#b"`, `"a{b}"`, `"say \"hi\""`, `"tab\there"`, `"back\\slash"`, `""`, `"{$VERIF_C19_A}"`, `"multi word value with  two spaces"`, `"pull"`, `"match"`, `"deliver"`})
 			return t[:k.s] + v + t[k.e:], "special_string_value"
 		}
